@@ -6,7 +6,7 @@ import c07
 
 CONFIGS_QUICK = ["F_all", "F_nool"]  # every configuration whose cfg-gated code the property depends on
 CONFIGS_THOROUGH = ["F_all", "F_nool"]
-TECHNIQUE = 'static analysis: who-may-grow rule and guard extraction for the skipped-event queue, checkpoint/Drop pairing, replay-order call sequences, loop decision table of skip(), sequence-access table; compile-fail witness, read_to_end table with loop-carried depth, compared-operand-is-the-name rule, filter polarity'
+TECHNIQUE = 'static analysis: who-may-grow rule and guard extraction for the skipped-event queue, checkpoint/Drop pairing, replay-order call sequences, loop decision table of skip(), sequence-access table; compile-fail witness, read_to_end table with loop-carried depth, compared-operand-is-the-name rule, filter polarity, who-may-call table for the ends of the replay queue'
 EXPLANATION = (
     "Limit discipline of the skipped-event queue: write.push_back occurs only in skip_event, after the test "
     "`write.len() >= limit` -> TooManyEvents(limit), the limit is read nowhere else and the comparison is monotone in the "
@@ -18,6 +18,14 @@ EXPLANATION = (
     "list without; End -> None without consuming; Eof -> missed end; Text / matching Start -> consume)."
 )
 ASSUMPTIONS = ["equality of the deserialized value for all interleavings is not decided", "VecDeque append/split_off/pop_front semantics (std)"]
+
+
+def checkpoint_is_queue_length(ctx, F):
+    b = F.body("de::Deserializer::skip_checkpoint")
+    if b is None:
+        return False
+    rs = [ret_of(p) for p in ctx.paths(b) if ends(p) == "ret"]
+    return bool(rs) and all(r is not None and call_is(strip_wrappers(r), "len") and ends_with_fields(strip_wrappers(r)[3][0], "write") for r in rs)
 
 
 def r1_limit(ctx):
@@ -57,7 +65,8 @@ def r1_limit(ctx):
                 rv = describe_ret(r, 1)[0]
                 if lim == 1:
                     c0 = cmp[0] if cmp else None
-                    mono = c0 is not None and c0[2][1] == "Ge" and call_is(c0[2][2], "len") and ends_with_fields(c0[2][2][3][0], "write") and call_is(c0[2][3], "get")
+                    qlen = c0 is not None and ((call_is(c0[2][2], "len") and ends_with_fields(c0[2][2][3][0], "write")) or (call_is(c0[2][2], "skip_checkpoint") and checkpoint_is_queue_length(ctx, F)))
+                    mono = c0 is not None and c0[2][1] == "Ge" and qlen and call_is(c0[2][3], "get")
                     over = c0 is not None and c0[3] != 0
                     if over:
                         ctx.ob("R1", "skip_event[limit,full]", mono and rv[:2] == ("Err", "TooManyEvents") and not pushed, "queue length >= limit -> Err(TooManyEvents(limit)) and nothing is queued; the test is `write.len() >= limit` (monotone in the limit)", config=cfg)
@@ -93,6 +102,10 @@ def r2_pairing(ctx):
                     continue
                 T = ("call", hit[0][1], hit[0][2], hit[0][3])
                 stored = any(a[0] == "agg" and a[1].endswith("MapValueSeqAccess") and T in a[3] for c in calls(p) for a in c[3])
+                only_compared = any(e[0] == "switch" and e[2][0] == "bin" and has_subterm(e[2], lambda s2: s2 == T) for e in p) and \
+                    not any(e[0] == "store" and has_subterm(e[3], lambda s2: s2 == T) for e in p) and not any(has_subterm(a, lambda s2: s2 == T) for c in calls(p) if c[1] != i for a in c[3])
+                if only_compared:
+                    break   # the queue length read for the limit test: not a checkpoint kept for a later replay
                 n += 1
                 ctx.ob("R2", "%s:checkpoint-stored" % sym.short(strip_generics(b.path)), stored, "the checkpoint goes into a MapValueSeqAccess (whose Drop replays)", config=cfg)
                 break
@@ -117,7 +130,8 @@ def r3_replay_order(ctx):
             for p in ctx.paths(b):
                 if ends(p) != "ret":
                     continue
-                zero = decision_on(p, lambda t: t[0] == "bin" and t[1] == "Eq" and t[3] == ("c", "usize", 0))
+                zsw = [e for e in p if e[0] == "switch" and e[2][0] == "bin" and e[2][1] in ("Eq", "Ne") and e[2][3] == ("c", "usize", 0)]
+                zero = None if not zsw else (1 if ((zsw[0][3] != 0) == (zsw[0][2][1] == "Eq")) else 0)
                 ap = [c for c in calls(p) if name_is(c[2], "append")]
                 okap = len(ap) == 1 and ends_with_fields(ap[0][3][1], "read")
                 if zero not in (0, None):
@@ -137,6 +151,21 @@ def r3_replay_order(ctx):
                 q = decision_on(p, lambda t: t[0] == "discr" and call_is(t[1], "pop_front"))
                 live = any(name_is(c[2], "next") and "XmlReader" in c[2] for c in calls(p))
                 ctx.ob("R3", "next[queue=%s]" % ("some" if q == 1 else "empty"), live == (q != 1), "next() serves the replay queue first and touches the live reader only when it is empty", config=cfg)
+
+
+def depth_is_zero(evs):
+    """How the path answered "is the nesting counter 0?": `depth == 0` or `match depth { 0 => .., _ => .. }`; None if not asked."""
+    for e in evs:
+        if e[0] != "switch":
+            continue
+        t = e[2]
+        if t[0] == "bin" and t[1] == "Eq" and t[2][0] == "phi" and strip_wrappers(t[3])[0] == "c" and strip_wrappers(t[3])[2] == 0:
+            return e[3] != 0
+        if strip_wrappers(t)[0] == "phi" and e[4] and 0 in e[4] and "int" not in str(type(None)):
+            if isinstance(e[3], int) and not isinstance(e[3], bool):
+                return e[3] == 0
+            return False
+    return None
 
 
 def r4_skip_table(ctx):
@@ -168,7 +197,8 @@ def r4_skip_table(ctx):
                     # what is compared must be the element *name* of the event (BytesStart derefs to the whole tag content)
                     if not has_subterm(e[2], lambda s2: call_is(s2, "BytesStart::name", "BytesEnd::name") and has_subterm(s2, lambda s3: call_is(s3, "next", "pop_front", "next_impl"))):
                         same = "not-a-name-comparison"
-            d0 = decision_on(body, lambda t: t[0] == "bin" and t[1] == "Eq" and t[2][0] == "phi" and strip_wrappers(t[3])[0] == "c" and strip_wrappers(t[3])[2] == 0)
+            dz = depth_is_zero(body)
+            d0 = None if dz is None else (1 if dz else 0)
             skipped = len([c for c in calls(body) if name_is(c[2], "skip_event")])
             r = ret_of(p)
             if r is not None and ((r[0] == "call" and name_is(r[2], "from_residual")) or is_error_exit(p)):
@@ -242,6 +272,18 @@ def r6_read_to_end(ctx):
             else:
                 out = "stop"
             skipped = any(name_is(c[2], "XmlReader::read_to_end") for c in calls(p))
+            # counted spelling of the reader rounds: `for _ in 0..=depth { reader.read_to_end(name)? } return Ok(())`
+            # = depth+1 rounds, one nesting level each, then stop
+            counted = [c for c in calls(p) if name_is(c[2], "RangeInclusive::new", "RangeInclusive<Idx>::new") and len(c[3]) == 2 and strip_wrappers(c[3][0]) == ("c", strip_wrappers(c[3][0])[1], 0)
+                       and has_subterm(c[3][1], lambda s2: s2[0] == "phi")]
+            if popped == 0 and counted:
+                exhausted = any(e[0] == "switch" and e[2][0] == "discr" and call_is(strip_wrappers(e[2][1]), "next") and has_subterm(e[2][1], lambda s2: s2[0] == "phi" or call_is(s2, "into_iter")) and e[3] == 0 for e in p)
+                if ends(p) == "loop" and skipped and not exhausted:
+                    rows.setdefault(("reader", None, False), set()).add(("depth-1", True))
+                    continue
+                if ends(p) == "ret" and exhausted:
+                    rows.setdefault(("reader", None, True), set()).add(("stop", True))
+                    continue
             src = "reader" if popped == 0 else (vs[ev] if isinstance(ev, int) and ev < len(vs) else "other")
             rows.setdefault((src, same, None if d0 is None else d0 != 0), set()).add((out, skipped))
         want = {("reader", None, True): {("stop", True)}, ("reader", None, False): {("depth-1", True)},
